@@ -63,12 +63,20 @@ func (c *monC03) track(m *Machine, s *Step) {
 		}
 		if post.Locked.After(c.lockedUntil[pid]) {
 			c.lockedUntil[pid] = post.Locked
+		} else if pre, had := s.Pre.Users[pid]; had && !post.Locked.Equal(pre.Locked) && !post.Locked.IsZero() && lockRewrites[s.Op.K] {
+			// a manual lock or a failure that (re)triggers the lock sets the deadline to
+			// now+LockDuration, which may be EARLIER than an operator's far ban: C04 judges
+			// that deadline, here it is simply the new truth
+			c.lockedUntil[pid] = post.Locked
 		}
 		if !post.Confirmed {
 			c.confirmed[pid] = false
 		}
 	}
 }
+
+// lockRewrites: ops in which the lock module itself may write a new (possibly earlier) deadline.
+var lockRewrites = map[string]bool{"lock": true, "login": true, "otplogin": true, "totpvalidate": true, "smsvalidate": true}
 
 // view returns the user as the model sees it: locked until the later of the
 // stored and the modelled deadline, confirmed only if the model agrees.
